@@ -20,7 +20,8 @@ Inductive uop :=
        [handle_block_insert] left just before the command ran, when leaving a
        block insert copied the typed text to the other lines of the block *)
 | OUndo
-| ORedo.
+| ORedo
+| OBoundary.    (* the end of a key string ([set_normal_mode]): an insert session left open is over, its record is closed *)
 
 Definition stop_merge (l : list edit) : list edit :=
   match l with e :: l' => mkEdit (e_old e) (e_new e) false :: l' | [] => [] end.
@@ -66,6 +67,7 @@ Definition ustep (s : ustate) (o : uop) : ustate :=
     | [] => mkU (u_buf s) undo1 (u_redo s)
     | e :: l' => mkU (e_old e) l' (mkEdit (e_new e) (e_old e) false :: u_redo s)
     end
+  | OBoundary => mkU (u_buf s) (stop_merge (u_undo s)) (u_redo s)
   | ORedo =>
     let undo1 := if top_merging (u_undo s) then stop_merge (u_undo s) else u_undo s in
     match u_redo s with
